@@ -27,4 +27,25 @@ mod kani_h {
     }}
     pad_harness!(c23_pad_password_0, 0); pad_harness!(c23_pad_password_1, 1); pad_harness!(c23_pad_password_31, 31);
     pad_harness!(c23_pad_password_32, 32); pad_harness!(c23_pad_password_33, 33);
+    // passwords whose 32nd byte falls INSIDE a multi-byte UTF-8 character: "use only its first 32 bytes" (Algorithm 2 step a) cuts the
+    // character in half; every such password made of $a ASCII bytes followed by one $t-byte character ($a + $t = 33)
+    macro_rules! pad_harness_split { ($name:ident, $a:expr, $t:expr) => {
+        #[kani::proof]
+        #[kani::unwind(40)]
+        fn $name() {
+            let mut bytes: [u8; 33] = kani::any();
+            let mut i = 0; while i < $a { kani::assume(bytes[i] < 0x80); i += 1; }
+            // a well-formed $t-byte sequence (lead byte ranges that need no further constraints on the continuation bytes)
+            if $t == 2 { kani::assume(bytes[$a] >= 0xC2 && bytes[$a] <= 0xDF); }
+            if $t == 3 { kani::assume(bytes[$a] >= 0xE1 && bytes[$a] <= 0xEC); }
+            if $t == 4 { kani::assume(bytes[$a] >= 0xF1 && bytes[$a] <= 0xF3); }
+            let mut j = $a + 1; while j < 33 { kani::assume(bytes[j] >= 0x80 && bytes[j] <= 0xBF); j += 1; }
+            if false { bytes[0] = 0; }
+            let s = unsafe { core::str::from_utf8_unchecked(&bytes) };
+            let r = StandardSecurityHandler::pad_password(s);
+            let mut k = 0;
+            while k < 32 { assert!(r[k] == bytes[k]); k += 1; }
+        }
+    }}
+    pad_harness_split!(c23_pad_password_split2, 31, 2); pad_harness_split!(c23_pad_password_split3, 30, 3); pad_harness_split!(c23_pad_password_split4, 29, 4);
 }
